@@ -1,6 +1,7 @@
 package turn
 
 import (
+	"fmt"
 	"sort"
 
 	"github.com/simimpact/srsim/pkg/engine/event"
@@ -15,14 +16,24 @@ import (
 //     turn (so index 1 instead of 0 when 0 gauge/AV)
 //  4. Emit GaugeChangeEvent
 func (mgr *manager) SetGauge(data info.ModifyAttribute) error {
-	previousGauge := mgr.target(data.Target).gauge
+	t := mgr.target(data.Target)
+	if t == nil {
+		return fmt.Errorf("unknown target: %v", data.Target)
+	}
+	previousGauge := t.gauge
+
+	// a gauge never goes below zero (advancing a unit past the front of the order puts it at 0)
+	newGauge := int64(data.Amount)
+	if newGauge < 0 {
+		newGauge = 0
+	}
 
 	// if there's no change to Gauge, exit early
-	if previousGauge == int64(data.Amount) {
+	if previousGauge == newGauge {
 		return nil
 	}
 
-	mgr.target(data.Target).gauge = int64(data.Amount)
+	t.gauge = newGauge
 
 	// find target index in mgr.orderHandler.turnOrder
 	targetIndex, err := mgr.orderHandler.FindTargetIndex(data.Target)
@@ -57,11 +68,17 @@ func (mgr *manager) SetGauge(data info.ModifyAttribute) error {
 }
 
 func (mgr *manager) ModifyGaugeNormalized(data info.ModifyAttribute) error {
+	if mgr.target(data.Target) == nil {
+		return fmt.Errorf("unknown target: %v", data.Target)
+	}
 	data.Amount = float64(mgr.target(data.Target).gauge) + data.Amount*float64(BaseGauge)
 	return mgr.SetGauge(data)
 }
 
 func (mgr *manager) ModifyGaugeAV(data info.ModifyAttribute) error {
+	if mgr.target(data.Target) == nil {
+		return fmt.Errorf("unknown target: %v", data.Target)
+	}
 	added := mgr.attr.Stats(data.Target).SPD() * data.Amount // SPD * AV = gauge
 	data.Amount = float64(mgr.target(data.Target).gauge) + added
 
